@@ -129,6 +129,7 @@ def overflowChainLoop (v : VersionIf) : Nat → OvflPage → Int → List OvflPa
   | 0, _, _, _ => .error .recursionError    -- unreachable with adequate fuel (see Proofs)
   | fuel+1, cur, remaining, acc =>
     if cur.next = 0 then .ok acc.reverse
+    else if acc.any (·.number = cur.next) then .error .parseError     -- the chain loops back (fix: commit)
     else do
       let remaining' := remaining - v.pageSize + Generated.OVERFLOW_HEADER_LENGTH
       let nx ← parseOverflowPage v cur.next remaining'
